@@ -5,7 +5,11 @@ from . import lib, cells
 EXPRS = ['1', '2 3 +', '10 3 -', '2 3 * 4 +', '1 2', '1 2 3', '[ 1 2 ]', '[ ]', '"s"', '1 2 swap', '5 dup *', '7 2 rem', '[ 1 [ 2 ] ]',
          ': sq dup * ; 4 sq', ': k 9 ; k k +', '#( 2 #) 3 +', '1 #( 2 3 + #) +', '6 const SIX', '6 const SIX SIX', '2 const TWO TWO TWO *',
          'depth', '1 2 depth', 'nil', 'true', '{ 1 "a" }', '3 0 do I loop', '1 if 2 else 3 then', '[ 1 2 3 ] length', '|ff|', '100 neg',
-         '[ 1 2 3 ] reverse', '"a" "b"', '1 2 3 rot', '5 0 do I loop 5 collect', '2 #( 3 #) *', ': g 1 2 ; g', '0x10 1 bsl']
+         '[ 1 2 3 ] reverse', '"a" "b"', '1 2 3 rot', '5 0 do I loop 5 collect', '2 #( 3 #) *', ': g 1 2 ; g', '0x10 1 bsl',
+         # several helper words and constants in one block, in every order (the purge must remove every word and keep every constant)
+         ': f 2 ; : g 3 ; f g *', ': a 1 ; : b 2 ; : c 3 ; a b c + +', ': h1 10 ; h1 const SIX : h2 SIX 1 + ; h2',
+         ': a 1 ; 6 const SIX : b SIX ; : c b a + ; c', '6 const SIX 2 const TWO : m SIX TWO * ; : n m m + ; n',
+         ': a 1 ; : b 2 ; 6 const SIX : c 3 ; : d 4 ; 2 const TWO a b c d + + +', ': f 1 ; : f 2 ; : f 3 ; f']
 SEAL = ['vv', 'drop', '1 ! vv', '5 var inner', 'swap', 'dup']
 PRE = ['', '1', '100 200', '"x"', '7 var vv', '7 var vv vv', '[ 1 ]']
 POST = ['', '1 +', 'dup', 'depth', 'drop', '2', 'print']
